@@ -20,6 +20,7 @@ import (
 // ---- c12.race ----
 
 type c12RaceRes struct {
+	hang  bool // a call never returned: no point in repeating with a longer deadline
 	outs  []sx.V
 	slow  bool
 	bad   string
@@ -142,15 +143,26 @@ func runC12Race(nconn, ncalls int, ems []sx.V, D time.Duration) (r c12RaceRes) {
 			want++
 		}
 	}
-	if !c12Wait(5*time.Second, func() bool { return e.cl.VerifRegistrySize() <= want }) {
-		fail("reader-stalled", fmt.Sprintf("packets not processed within 5 s: registry size %d, expected %d", e.cl.VerifRegistrySize(), want))
+	if !c12Wait(5*time.Second, func() bool { return c12RegSize(e.cl) <= want }) {
+		fail("reader-stalled", fmt.Sprintf("packets not processed within 5 s: registry size %d, expected %d", c12RegSize(e.cl), want))
 	}
 	if time.Since(calls[0].start) > D/2 {
 		r.slow = true
 	}
 	r.outs = make([]sx.V, ncalls)
+	var stuckUntil time.Time
 	for i, c := range calls {
-		if !c.wait(time.Until(c.start.Add(D + c12Hang))) {
+		left := time.Until(c.start.Add(D + c12Hang))
+		if c12Stuck(e.cl) { // the client is wedged: nothing will return any more; 300 ms for all of them
+			if stuckUntil.IsZero() {
+				stuckUntil = time.Now().Add(300 * time.Millisecond)
+			}
+			if l := time.Until(stuckUntil); l < left {
+				left = l
+			}
+		}
+		if !c.wait(left) {
+			r.hang = true
 			fail("call-hangs", fmt.Sprintf("call %d has not returned %v after its deadline of %v", i, c12Hang, D))
 		}
 		r.outs[i] = c12Outcome(c, datum)
@@ -188,7 +200,10 @@ func runC12Race(nconn, ncalls int, ems []sx.V, D time.Duration) (r c12RaceRes) {
 			fail("unexpected-error", fmt.Sprintf("call %d: %v", i, c.err))
 		}
 	}
-	if n := e.cl.VerifRegistrySize(); n != 0 {
+	if c12Stuck(e.cl) {
+		fail("registry-lock-stuck", c12StuckWhat)
+	}
+	if n := c12RegSize(e.cl); n > 0 {
 		fail("registry-leak", fmt.Sprintf("%d entries left in the registry after all calls returned", n))
 	}
 	return r
@@ -204,7 +219,7 @@ func c12RaceRobust(nconn, ncalls int, ems []sx.V, D time.Duration) c12RaceRes {
 				lost = true
 			}
 		}
-		if (!r.slow && !lost) || r.bad != "" {
+		if (!r.slow && !lost) || r.bad != "" || r.hang {
 			return r
 		}
 		D *= 2
@@ -439,10 +454,13 @@ func runC12Seq(nconn int, acts []sx.V, D time.Duration) (r c12SeqRes) {
 					fail("later-call-fails", fmt.Sprintf("call after the reconnect returned class %d", cl))
 				}
 			}
-			log(sx.L(sx.A("reg"), sx.Nat(e.cl.VerifRegistrySize())))
+			log(sx.L(sx.A("reg"), sx.Nat(c12RegSize(e.cl))))
 		}
 	}
-	if n := e.cl.VerifRegistrySize(); n != 0 {
+	if c12Stuck(e.cl) {
+		fail("registry-lock-stuck", c12StuckWhat)
+	}
+	if n := c12RegSize(e.cl); n > 0 {
 		fail("registry-leak", fmt.Sprintf("%d entries left in the registry after all calls returned", n))
 	}
 	return r
@@ -590,7 +608,15 @@ func c12SoakCalls(ncalls, par int) (fails []c12Fail) {
 				}
 			}(g)
 		}
-		wg.Wait()
+		done := make(chan struct{})
+		go func() { wg.Wait(); close(done) }()
+		select {
+		case <-done:
+		case <-time.After(60 * time.Second):
+			mu.Lock()
+			fail("call-hangs", fmt.Sprintf("soak: calls of batch %d have not all returned after 60 s (client timeout 2 s)", base))
+			mu.Unlock()
+		}
 	}
 	batch(200, 0)
 	time.Sleep(20 * time.Millisecond)
@@ -601,10 +627,10 @@ func c12SoakCalls(ncalls, par int) (fails []c12Fail) {
 	if g1 > g0+2 {
 		fail("goroutine-growth", fmt.Sprintf("%d goroutines before and %d after %d completed calls", g0, g1, ncalls))
 	}
-	if n := cl.VerifRegistrySize(); n != 0 {
+	if n := c12RegSize(cl); n > 0 {
 		fail("registry-leak", fmt.Sprintf("%d entries left after the soak", n))
 	}
-	if !cl.IsOK() {
+	if okv, answered := c12Watch(func() bool { return cl.IsOK() }); !answered || !okv {
 		fail("soak-not-ok", "IsOK() is false on a healthy client")
 	}
 	close(stop)
